@@ -378,6 +378,24 @@ def r13_6(ctx):
         ctx.ob("R13.6", f"{short(f.id)}:carry-consulted", not leak, f.loc(last[0][1]["ln"]),
                "on every path of a block iteration the escape carry of the previous block is consulted before the quote bits are used" if not leak else
                "a path of the block iteration uses the quote bits without consulting the escape carry: a quote escaped by a backslash at the end of the previous block ends the string (wrong span / lost escape status)")
+        # hand-over to a scalar tail: when the carry is a local of this function and bytes are still examined after the
+        # vector loop, the carry is read between the loop and the first such read
+        if carry_local is not None:
+            loop = {b for b in range(len(f.d["blocks"])) if not f.d["blocks"][b].get("cleanup") and any(b in f.reachable_from(x) for x in f.succs(b))}
+            vec = {b for b in loop if S in f.reachable_from(b) and b in f.reachable_from(S)} | {S}
+            after = set()
+            for b in vec:
+                for x in f.succs(b):
+                    if x not in vec and not f.d["blocks"][x].get("cleanup"):
+                        after |= f.reachable_from(x) | {x}
+            after -= vec
+            reads = [(b, t) for b, t in f.calls() if b in after and callee_is(t, "Reader::peek", "Reader::next", "Reader::at", "Reader::next_n", "Reader::peek_n")]
+            uses = {b for b in consult if b in after}
+            if reads:
+                ok_tail = all(any(f.dominates(u, rb) for u in uses) for rb, rt in reads)
+                ctx.ob("R13.6", f"{short(f.id)}:carry-handed-to-scalar-tail", ok_tail, f.loc(reads[0][1]["ln"]),
+                       "the scalar tail after the vector loop starts from the carry of the last block" if ok_tail else
+                       "the scalar tail after the vector loop examines bytes without having read the escape carry of the last block: its first byte may be the second half of an escape pair")
 
 
 def r13_7(ctx):
